@@ -1233,8 +1233,20 @@ pub fn real_prove(
     draws: &[Fe; 14],
     ver: Version,
 ) -> Result<(Vec<u8>, Vec<Fe>, Vec<crate::rng::Call>), String> {
+    real_prove_faulty(prover, prog, draws, ver, &[])
+}
+
+/// As `real_prove`, with entropy outages of the RNG's fallible interface.
+pub fn real_prove_faulty(
+    prover: &dusk_plonk::prelude::Prover,
+    prog: &crate::prog::Prog,
+    draws: &[Fe; 14],
+    ver: Version,
+    faults: &[(usize, usize)],
+) -> Result<(Vec<u8>, Vec<Fe>, Vec<crate::rng::Call>), String> {
     use dusk_plonk::prelude::PlonkVersion;
     let mut rng = crate::rng::ScriptedRng::new(draws.to_vec());
+    rng.faults = faults.to_vec();
     let pv = match ver {
         Version::V2 => PlonkVersion::V2,
         Version::V3 => PlonkVersion::V3,
